@@ -9,6 +9,7 @@ import (
 	"time"
 
 	"github.com/cloudwego/hertz/pkg/app"
+	"github.com/cloudwego/hertz/pkg/app/server"
 	"github.com/cloudwego/hertz/pkg/common/config"
 	"github.com/cloudwego/hertz/pkg/network"
 	"github.com/cloudwego/hertz/pkg/network/standard"
@@ -27,9 +28,9 @@ func init() {
 		Assumptions: []string{
 			"standard transport only (netpoll's Shutdown is not simulated)",
 			"the window between the status load and the CAS inside Engine.Shutdown contains no park point; a second Shutdown is only judged when it starts after the first one has begun",
-			"signal handling (Spin) is not exercised",
+			"the OS signal itself is not simulated: Hertz.Spin runs with a custom signal waiter (SetCustomSignalWaiter) that returns when the scenario says so",
 		},
-		RequiredProbes: []string{"conn-idle-at-shutdown", "conn-handler-running-at-shutdown", "conn-mid-request-at-shutdown", "hook-slow", "hook-beyond-deadline", "second-shutdown", "shutdown-before-run", "dial-after-shutdown", "wait-expired", "returned-early", "close-hdr-checked", "slow-accept-callback", "request-received-before-shutdown", "pipelined-request-received-before-shutdown", "listen-error", "slow-reader", "write-backpressure", "handler-sets-connection", "client-rst-during-handler", "dial-during-drain"},
+		RequiredProbes: []string{"conn-idle-at-shutdown", "conn-handler-running-at-shutdown", "conn-mid-request-at-shutdown", "hook-slow", "hook-beyond-deadline", "second-shutdown", "shutdown-before-run", "dial-after-shutdown", "wait-expired", "returned-early", "close-hdr-checked", "slow-accept-callback", "request-received-before-shutdown", "pipelined-request-received-before-shutdown", "listen-error", "slow-reader", "write-backpressure", "handler-sets-connection", "client-rst-during-handler", "dial-during-drain", "spin"},
 	}
 }
 
@@ -149,7 +150,15 @@ func RunC18(ep *core.Episode) {
 	}
 
 	// scenario switches
-	beforeRun := tp.Chance("shutdown-before-run", 1, 12)
+	// 11: Shutdown before Run; 12..15: the server is run and shut down through Hertz.Spin with a custom signal waiter
+	brk := tp.Choose("shutdown-before-run", 16)
+	beforeRun := brk == 11
+	spin := brk >= 12 && !listenFail
+	uptime := time.Duration(0)
+	if spin {
+		ep.Probe("spin")
+		uptime = tp.PickDur("uptime", 0, exitWait/2, exitWait*2)
+	}
 	second := tp.Chance("second", 1, 3)
 
 	if beforeRun {
@@ -164,6 +173,10 @@ func RunC18(ep *core.Episode) {
 	var runErr error
 	runReturned := false
 	runTask := S.Go("run", func() {
+		if spin {
+			runReturned = true // Spin runs the engine itself
+			return
+		}
 		runErr = eng.Run()
 		S.Yield("after-run")
 		runReturned = true
@@ -236,66 +249,86 @@ func RunC18(ep *core.Episode) {
 	firstWasRunning, secondWasRunning := false, false
 	var stillOpen []string
 	shutTask := S.Go("shutdown", func() {
-		// the main shutdown call waits until the engine is up (or, when listening fails, until Run has given up)
-		for i := 0; i < 400 && !eng.IsRunning() && !(listenFail && runReturned); i++ {
-			S.Yield("wait-until-running")
-		}
-		firstWasRunning = eng.IsRunning()
-		hmu.Lock()
-		shutdownCalled = true
-		shutdownAt = time.Now()
-		activeAtShutdown = ln.Accepted
-		hmu.Unlock()
-		// classify connection states at the flip (reach measure)
-		var vec []string
-		for _, c := range conns {
-			st := "idle"
+		var t0 time.Time
+		preFlip := func() {
+			// the main shutdown call waits until the engine is up (or, when listening fails, until Run has given up)
+			for i := 0; i < 400 && !eng.IsRunning() && !(listenFail && runReturned); i++ {
+				S.Yield("wait-until-running")
+			}
+			firstWasRunning = eng.IsRunning()
 			hmu.Lock()
-			h := len(handled[c.name])
+			shutdownCalled = true
+			shutdownAt = time.Now()
+			activeAtShutdown = ln.Accepted
 			hmu.Unlock()
-			switch {
-			case c.sc.A.IsClosed():
-				st = "closed"
-			case c.cl.next == 0 && c.sc.A.In.Total == 0:
-				st = "unsent"
-			case running > 0 && h > len(c.cl.Resps):
-				st = "handler"
-				ep.Probe("conn-handler-running-at-shutdown")
-			case c.sc.A.In.Total > 0 && h == len(c.cl.Resps) && c.sc.A.In.Total < c.cl.sentBytes || c.sc.A.InflightTo() > 0:
-				st = "midreq"
-				ep.Probe("conn-mid-request-at-shutdown")
-			default:
-				ep.Probe("conn-idle-at-shutdown")
-			}
-			vec = append(vec, st)
-			// what the server owes this connection at this instant: the next request, if all of it has been
-			// delivered to an accepted connection, every earlier one is answered and no handler is running
-			// (a handler that returns after the flip ends the connection by design)
-			accepted := false
-			for _, ac := range ln.AcceptedConns {
-				accepted = accepted || ac == c.sc.A
-			}
-			hmu.Lock()
-			hh := handled[c.name]
-			doneBefore := 0
-			for _, x := range hh {
-				if x.returned {
-					doneBefore++
+			// classify connection states at the flip (reach measure)
+			var vec []string
+			for _, c := range conns {
+				st := "idle"
+				hmu.Lock()
+				h := len(handled[c.name])
+				hmu.Unlock()
+				switch {
+				case c.sc.A.IsClosed():
+					st = "closed"
+				case c.cl.next == 0 && c.sc.A.In.Total == 0:
+					st = "unsent"
+				case running > 0 && h > len(c.cl.Resps):
+					st = "handler"
+					ep.Probe("conn-handler-running-at-shutdown")
+				case c.sc.A.In.Total > 0 && h == len(c.cl.Resps) && c.sc.A.In.Total < c.cl.sentBytes || c.sc.A.InflightTo() > 0:
+					st = "midreq"
+					ep.Probe("conn-mid-request-at-shutdown")
+				default:
+					ep.Probe("conn-idle-at-shutdown")
 				}
-			}
-			if accepted && idleT > 0 && doneBefore == len(hh) && doneBefore < c.nreq && c.reqEnds[doneBefore] <= c.sc.A.ArrivedTo() && !c.sc.A.IsClosed() && !c.sc.B.IsClosed() {
-				c.owed = doneBefore
-				ep.Probe("request-received-before-shutdown")
-				if doneBefore > 0 {
-					ep.Probe("pipelined-request-received-before-shutdown")
+				vec = append(vec, st)
+				// what the server owes this connection at this instant: the next request, if all of it has been
+				// delivered to an accepted connection, every earlier one is answered and no handler is running
+				// (a handler that returns after the flip ends the connection by design)
+				accepted := false
+				for _, ac := range ln.AcceptedConns {
+					accepted = accepted || ac == c.sc.A
 				}
+				hmu.Lock()
+				hh := handled[c.name]
+				doneBefore := 0
+				for _, x := range hh {
+					if x.returned {
+						doneBefore++
+					}
+				}
+				if accepted && idleT > 0 && doneBefore == len(hh) && doneBefore < c.nreq && c.reqEnds[doneBefore] <= c.sc.A.ArrivedTo() && !c.sc.A.IsClosed() && !c.sc.B.IsClosed() {
+					c.owed = doneBefore
+					ep.Probe("request-received-before-shutdown")
+					if doneBefore > 0 {
+						ep.Probe("pipelined-request-received-before-shutdown")
+					}
+				}
+				hmu.Unlock()
 			}
-			hmu.Unlock()
+			ep.Sig("flip:" + strings.Join(vec, ","))
+			ep.Logf("  shutdown begins; connection states %v", vec)
+			t0 = time.Now()
 		}
-		ep.Sig("flip:" + strings.Join(vec, ","))
-		ep.Logf("  shutdown begins; connection states %v", vec)
-		t0 := time.Now()
-		shutErr = eng.Shutdown(context.Background())
+		if spin {
+			// Spin starts Run, waits for the "signal" (the waiter returns) and calls Shutdown with the exit wait time;
+			// it reports nothing: its return stands for a Shutdown that returned nil
+			h := &server.Hertz{Engine: eng}
+			h.SetCustomSignalWaiter(func(errCh chan error) error {
+				go func() { <-errCh }() // Run's result, once it ends
+				if uptime > 0 {
+					time.Sleep(uptime)
+					S.Yield("uptime-over")
+				}
+				preFlip()
+				return nil
+			})
+			h.Spin()
+		} else {
+			preFlip()
+			shutErr = eng.Shutdown(context.Background())
+		}
 		shutDur = time.Since(t0)
 		hmu.Lock()
 		hookDoneAtReturn = append([]int(nil), hookDone...)
@@ -469,7 +502,7 @@ func RunC18(ep *core.Episode) {
 	// a call made while the engine is running and no shutdown has begun must succeed;
 	// every other call (not running yet, or a shutdown already under way) must return an error
 	if !beforeRun {
-		if !firstWasRunning && shutErr == nil {
+		if !firstWasRunning && shutErr == nil && !spin { // Spin logs what Shutdown returns, it does not report it
 			ep.Fail("C18.second", "Shutdown of an engine that is not running returned nil")
 			return
 		}
